@@ -7,9 +7,11 @@ pub mod engine_acct;
 pub mod engine_evlog;
 pub mod engine_files;
 pub mod engine_http;
+pub mod engine_scan;
 pub mod engine_sync;
 pub mod prop_c01;
 pub mod prop_c02;
+pub mod prop_c03;
 pub mod prop_c04;
 pub mod prop_c05;
 pub mod prop_c06;
@@ -36,6 +38,7 @@ pub fn registry() -> Vec<PropertyDef> {
     vec![
         prop_c01::def(),
         prop_c02::def(),
+        prop_c03::def(),
         prop_c04::def(),
         prop_c05::def(),
         prop_c06::def(),
@@ -57,7 +60,7 @@ pub fn registry() -> Vec<PropertyDef> {
 }
 
 /// Internal process sub-modes used by engines (crash children, decoder workers).
-pub fn internal_mode(mode: &str, _args: &[String]) -> i32 {
+pub fn internal_mode(mode: &str, args: &[String]) -> i32 {
     match mode {
         // decoder worker of engine E (C15): requests on stdin, answers on stdout
         "codec-worker" => prop_c15::worker_main(),
@@ -68,6 +71,8 @@ pub fn internal_mode(mode: &str, _args: &[String]) -> i32 {
             framework::install_quiet_panic_hook();
             engine_codec::selftest() + prop_c15::selftest()
         }
+        // C03 sensitivity: markers in folder names (stored in the clear) must be seen by the scanner
+        "c03-sensitivity" => prop_c03::sensitivity_main(args),
         _ => {
             eprintln!("unknown mode {mode}");
             2
